@@ -574,7 +574,8 @@ Inductive pevent :=
 | PvAttach (b : block)
 | PvDetach
 | PvProcess (b : block)
-| PvReceive (t : tx).
+| PvReceive (t : tx)
+| PvRestart.                    (* the process is restarted: the handler's volatile state is lost *)
 
 Record psim := { q_node : node; q_h : hstate; q_own : list (N * N) }.
 
@@ -585,6 +586,7 @@ Definition pstep (p : params) (a3fix : bool) (s : psim) (e : pevent) : psim :=
   | PvDetach => {| q_node := removelast (q_node s); q_h := q_h s; q_own := q_own s |}
   | PvProcess b => {| q_node := q_node s; q_h := pprocess_or_keep p a3fix (own_of (q_own s)) (q_node s) (q_h s) b; q_own := q_own s |}
   | PvReceive t => {| q_node := q_node s; q_h := fst (receive_tx p (own_of (q_own s)) (q_node s) (q_h s) t); q_own := q_own s |}
+  | PvRestart => {| q_node := q_node s; q_h := {| h_store := h_store (q_h s); h_mempool := []; h_expired := [] |}; q_own := q_own s |}
   end.
 
 Definition init_psim (genesis : block) : psim :=
@@ -646,15 +648,22 @@ Definition unmined_history (s : pstate) (w : N) (binding : bool) : list hrow :=
 Definition credit_by_height (cs : list credit) (tid : N) (h : Z) (v : N) : option credit :=
   find (fun c => (c_tx c =? tid)%N && (c_height c =? h) && (c_vout c =? v)%N) cs.
 
-(* GetStakingHistoryDetail / GetBindingHistoryDetail (the binding variant also needs the tx record) *)
-Definition mined_history (s : pstate) (w : N) (binding : bool) (exclude_withdrawn : bool) : list hrow :=
+(* GetBindingHistoryDetail reads the transaction through its tx record and FetchTxByLoc(height, loc),
+   i.e. from the block the NODE has at that height now: the row is produced when that is the block
+   of the wallet's block record (otherwise the bytes at that location are not this transaction) *)
+Definition binding_tx_readable (n : node) (s : pstate) (tid : N) (h : Z) : bool :=
+  existsb (fun b => (br_height b =? h) && existsb (fun t => (t_id t =? tid)%N) (br_txs b) &&
+                    match node_at n h with Some nb => (b_id nb =? br_bid b)%N | None => false end) (ps_blocks s).
+
+(* GetStakingHistoryDetail / GetBindingHistoryDetail *)
+Definition mined_history (n : node) (s : pstate) (w : N) (binding : bool) (exclude_withdrawn : bool) : list hrow :=
   flat_map (fun r =>
     if (g_wallet r =? w)%N && Bool.eqb (g_binding r) binding && negb (exclude_withdrawn && g_withdrawn r)
        && negb (g_height r =? 0) then
       match credit_by_height (credits (ps_w s)) (g_tx r) (g_height r) (g_vout r) with
       | None => []
       | Some c =>
-          if binding && negb (existsb (fun b => (br_height b =? g_height r) && existsb (fun t => (t_id t =? g_tx r)%N) (br_txs b)) (ps_blocks s))
+          if binding && negb (binding_tx_readable n s (g_tx r) (g_height r))
           then []
           else [ {| hr_tx := g_tx r; hr_vout := g_vout r; hr_amount := c_amount c; hr_sh := c_sh c;
                     hr_frozen := (if binding then 0 else c_maturity c - 1); hr_height := g_height r;
@@ -665,8 +674,8 @@ Definition mined_history (s : pstate) (w : N) (binding : bool) (exclude_withdraw
     else []) (ps_game s).
 
 (* WalletManager.GetStakingHistory / GetBindingHistory *)
-Definition game_history (s : pstate) (w : N) (binding : bool) (exclude_withdrawn : bool) : list hrow :=
-  unmined_history s w binding ++ mined_history s w binding exclude_withdrawn.
+Definition game_history (n : node) (s : pstate) (w : N) (binding : bool) (exclude_withdrawn : bool) : list hrow :=
+  unmined_history s w binding ++ mined_history n s w binding exclude_withdrawn.
 
 (* ---------------------------------------------------------------- specification side *)
 
@@ -768,3 +777,54 @@ Definition consensus_unlock_height (bp : bparams) (cls : oclass) (h : Z) : optio
   | Some v => Some (h + v)
   | None => None
   end.
+
+(* a transaction concerns the wallet when it pays one of its script hashes or spends an output that
+   does; [universe] looks a transaction up among all transactions ever defined *)
+Definition spec_relevant (own : owner_fn) (universe : N -> option tx) (t : tx) : bool :=
+  match filter_outs own (t_outs t) 0%N with
+  | _ :: _ => true
+  | [] =>
+      negb (t_cb t) &&
+      existsb (fun o => match universe (fst o) with
+                        | Some pt => match nth_error (t_outs pt) (N.to_nat (snd o)) with
+                                     | Some out => match o_class out, own (o_sh out) with
+                                                   | CUnsupported, _ => false
+                                                   | _, Some _ => true
+                                                   | _, None => false
+                                                   end
+                                     | None => false
+                                     end
+                        | None => false
+                        end) (t_ins t)
+  end.
+
+(* [ideal_pending] is the largest set that may be pending.  Two valid unconfirmed transactions that
+   spend the same output cannot both confirm, and which of them a wallet (or a node's mempool) still
+   holds depends on the order of events; such a transaction and its descendants are left undetermined.
+   [settled_pending upper upper []] is the part of [upper] that must be pending. *)
+Definition conflicts (a b : tx) : bool :=
+  negb (t_id a =? t_id b)%N && existsb (fun o => existsb (op_eqb o) (t_ins b)) (t_ins a).
+
+Fixpoint settled_pending (upper : list tx) (cands : list tx) (acc : list tx) : list tx :=
+  match cands with
+  | [] => acc
+  | t :: rest =>
+      let ok := negb (existsb (conflicts t) upper) &&
+                forallb (fun o => negb (existsb (fun q => creates q o) upper) || existsb (fun q => creates q o) acc) (t_ins t) in
+      settled_pending upper rest (if ok then acc ++ [t] else acc)
+  end.
+
+(* what consensus makes of a deposit: the coinbase maturity and the sequence lock both apply *)
+Definition consensus_lock (p : params) (bp : bparams) (k : coin) : Z :=
+  Z.max (if k_cb k then p_cbmat p else 0)
+        (match csv_operand bp (k_class k) (k_height k) with Some v => v | None => 0 end).
+
+(* the block at height [next] may contain a transaction spending the coin *)
+Definition consensus_withdrawable (p : params) (bp : bparams) (next : Z) (k : coin) : bool :=
+  consensus_lock p bp k <=? next - k_height k.
+
+(* withdrawable staking / binding funds of wallet w according to consensus *)
+Definition spec_withdrawable (p : params) (bp : bparams) (own : owner_fn) (c : list block) (w : N) (binding : bool) : Z :=
+  spec_sum (fun k => consensus_withdrawable p bp (chain_height c + 1) k &&
+                     match game_kind (k_class k) with Some b => Bool.eqb b binding | None => false end)
+           (filter (fun k => negb (k_amount k =? 0)) (utxo_of_chain own c w)).
